@@ -67,6 +67,8 @@ func init() {
 }
 
 func runC01(c *Ctx, r *Report) {
+	r.Rule("C01/file-lines", "the from-file variants get one command per line of the file (what the device receives is each command followed by one return)", 1)
+	checkFileLines(c, r, "C01/file-lines")
 	importFoundation(c, r, "C01", "response-record")
 	importFoundation(c, r, "C01", "queue")
 	importFoundation(c, r, "C01", "transport-pipe")
